@@ -64,6 +64,8 @@ def make_case(rng, kind=None):
         gap = avail * float(rng.choice([0.01, 0.3, 3.0, 100.0]))
     E[t] = E[s] + gap
     c = dict(n=n, N=N, mass=mass, v=v, d=d, E=E, s=s, t=t, kind=str(kind), delta=delta, int_mass=bool(intm))
+    if rng.random() < 0.4:
+        c["afssh_scale"] = float(10 ** -rng.uniform(0, 14))      # only read by the A-FSSH class: length of the moment difference
     if N >= 3 and rng.random() < 0.3:
         # a FRUSTRATED attempt towards a third state, along another direction, on the same trajectory object right before the
         # judged hop: nothing of it may survive into the next hop
@@ -120,7 +122,14 @@ def impl_hop(c, clsname):
     hop = {"target": t, "weight": 1.0, "zeta": 0.25, "prob": 0.5}
     parent_before = None
     if clsname == "AugmentedFSSH":
-        traj.delP[:, s, s] = d
+        # A-FSSH rescales along the difference of the diagonal momentum moments, whatever its length (it is normalised), NOT along
+        # the derivative coupling: the coupling is given an unrelated direction and the moments a length between 1 and 1e-14
+        # (first steps of a run, right after a collapse)
+        d_mom = d * float(c.get("afssh_scale", 1.0))
+        traj.delP[:, s, s] = d_mom
+        other = np.cos(np.arange(n) + 1.0) * float(np.linalg.norm(d))
+        dc[s, t, :] = other
+        dc[t, s, :] = -other
     pre = c.get("pre") if clsname != "EvenSamplingTrajectory" else None
     npre = 0
     if pre is not None:
@@ -128,7 +137,7 @@ def impl_hop(c, clsname):
         dc[s, pt, :] = pd
         dc[pt, s, :] = -pd
         if clsname == "AugmentedFSSH":
-            traj.delP[:, pt, pt] = d - pd             # direction of rescale = delP[s,s] - delP[pt,pt] = pd
+            traj.delP[:, pt, pt] = d_mom - pd          # direction of rescale = delP[s,s] - delP[pt,pt] = pd
         v_before = np.array(traj.velocity)
         traj.hop_to_it([{"target": pt, "weight": 1.0, "zeta": 0.2, "prob": 0.4}], elec)
         pre_problem = None
